@@ -351,6 +351,19 @@ func (a *a6) bounds() {
 			counts[o.kind]++
 			total++
 			okey := fmt.Sprintf("%s:%s#%d", FnName(fn), o.kind, counts[o.kind])
+			// index and slice obligations are keyed by the source text of the expression, so that a
+			// reviewed line cannot drift to a different expression when code is inserted before it
+			if o.kind == "index" || o.kind == "slice" {
+				if txt := p.ExprText(o.in.Pos()); txt != "" {
+					counts[o.kind]--
+					tk := o.kind + "(" + strings.ReplaceAll(txt, " ", "") + ")"
+					counts[tk]++
+					okey = fmt.Sprintf("%s:%s", FnName(fn), tk)
+					if counts[tk] > 1 {
+						okey = fmt.Sprintf("%s#%d", okey, counts[tk])
+					}
+				}
+			}
 			pos := p.Pos(o.in.Pos())
 			o2 := o
 			var goals []lin
